@@ -510,7 +510,7 @@ def run_adaptive(params, known):
     nacks = 6 if params.get('thorough') else 4
     # peer MRUs above and *below* the controller's internal floor of 10240 octets
     for (mru, init, target) in ((20000, 5000, 1), (12000, 20000, 1), (64000, 11000, 2), (4096, 4096, 1), (10239, 3000, 1)):
-        for (delays, late_second) in itertools.product(itertools.product((1, 10 ** 7), repeat=nacks), (False, True)):
+        for (delays, late_second) in itertools.product(itertools.product((1, 10 ** 7), repeat=nacks), (False, True, 'after-the-first-has-finished')):
             count += 1
             size = 24000
             prm = dict(scripts={'A': [('send', 'ab' * size), ('send', 'cd' * size)], 'B': []},
@@ -530,10 +530,13 @@ def run_adaptive(params, known):
                 steps += 1
                 evs = w.enabled_events()
                 user = [e for e in evs if e[0] == 'user']
-                if user and queued < 2 and (queued == 0 or not late_second or acks >= 2):
+                first_done = bool(dlv.success['A'])
+                if user and queued < 2 and (queued == 0 or not late_second or (acks >= 2 and late_second is True)
+                                            or (late_second == 'after-the-first-has-finished' and first_done)):
                     # queue the first bundle as soon as the session is established; the second
                     # either at once (pipelined) or only after acknowledgements have already
-                    # moved the controller (its segments are then cut with the adapted size)
+                    # moved the controller (its segments are then cut with the adapted size), or only when the
+                    # first has been acknowledged completely and reported (nothing is in flight any more)
                     if w.handler('A').get_session_state() == 'established':
                         (vs, _e) = w.apply(user[0])
                         found.extend(vs)
